@@ -1218,3 +1218,87 @@ def r_keep_going(rule, root=None):
             rule.ok("render_tile leaves its z loop when render_tile_recurse answers false", file=VOX, line=brk[0].get("ln", rt["ln"]))
         else:
             rule.bad("voxel|stop|caller", "voxel render_tile leaves its descending z loop under `%s`; it may only stop when render_tile_recurse answers false (column filled)" % c, A.where(VOX, brk[0]))
+
+
+# ---------------------------------------------------------------------------
+# the NaN-boxed 2D pixel (C06)
+
+
+def _const_int(path, owner, name, root=None):
+    d = A.load(path, root)
+    for c in A.find(d, "Const"):
+        if c.get("name") == name:
+            t = A.unparse(c.get("e") or c.get("init") or c.get("value") or {}).replace(" ", "")
+            if re.fullmatch(r"[0-9a-fA-Fxb_()<>|&+*-]+", t):
+                try:
+                    return int(eval(t, {"__builtins__": {}}, {}))  # noqa: S307 - digits and operators only
+                except Exception:  # noqa: BLE001
+                    return None
+    return None
+
+
+def r_pixel_boxing(rule, root=None):
+    """`RawDistancePixel` packs either a distance or a fill record into one f32.  A distance is inside exactly under
+    `v < 0.0` - a comparison, so a NaN distance is outside whatever its sign bit (hardware NaNs are negative); a fill
+    is inside by its own flag; the packed fill is a NaN whose key bits cannot be confused with flag / depth bits,
+    and the reader takes flag and depth from the bits the writer put them in."""
+    fn = A.find_fn(PIX, "inside", self_ty="RawDistancePixel", root=root)
+    ms = list(A.find(fn["body"], "Match"))
+    arms = {}
+    if ms:
+        for arm in ms[0]["arms"]:
+            segs, subs = A.pat_variant(arm["pat"])
+            if segs:
+                arms[segs[-1]] = (arm, subs)
+    if "Value" not in arms or "Fill" not in arms:
+        rule.lost("match self.unpack() { Fill .. , Value(v) .. } in RawDistancePixel::inside")
+    else:
+        arm, subs = arms["Value"]
+        v = A.binding_name(subs[0]) if subs else None
+        t = str(txt(arm["body"])).strip("()")
+        if v and t in ("%s<0.0" % v, "0.0>%s" % v, "*%s<0.0" % v):
+            rule.ok("a distance pixel is inside exactly under `v < 0.0` (NaN: outside)", file=PIX, line=arm["ln"])
+        else:
+            rule.bad("pixel|inside|value", "RawDistancePixel::inside decides a distance value with `%s`; it must be the comparison `v < 0.0`, which is false for a NaN of either sign (invalid operations on x86 produce NaNs with the sign bit set) and for -0.0" % t[:70], A.where(PIX, arm))
+        arm, subs = arms["Fill"]
+        t = str(txt(arm["body"]))
+        if t == "inside":
+            rule.ok("a filled pixel is inside by its own flag", file=PIX, line=arm["ln"])
+        else:
+            rule.bad("pixel|inside|fill", "a filled pixel must report its own `inside` flag, found `%s`" % t[:50], A.where(PIX, arm))
+    key, mask = _const_int(PIX, "RawDistancePixel", "KEY", root), _const_int(PIX, "RawDistancePixel", "KEY_MASK", root)
+    if key is None or mask is None:
+        rule.skip("RawDistancePixel KEY / KEY_MASK", "constants not evaluable", count=True)
+        return
+    payload = (0xFF << 1) | 1
+    if key & ~mask or mask & payload or key == 0 or mask & 0xFF800000:
+        rule.bad("pixel|key", "KEY = %#x / KEY_MASK = %#x: the key must lie inside its mask, inside the mantissa, and clear of the flag (bit 0) and depth (bits 1-8) fields" % (key, mask), PIX)
+    else:
+        rule.ok("the fill key lies inside its mask and clear of the flag / depth bits", file=PIX)
+    # writer
+    d = A.load(PIX, root)
+    fr = [f for f in d["_fns"] if f["name"] == "from" and (f.get("_owner") or {}).get("self_ty") == "RawDistancePixel" and "DistancePixel" in ((f.get("_owner") or {}).get("trait") or "")]
+    wt = str(txt(fr[0]["body"])) if fr else ""
+    m = re.search(r"letbits=(.+?);Self\(f32::from_bits\(bits\)\)", wt)
+    if not fr or not m:
+        rule.skip("RawDistancePixel::from(DistancePixel)", "the packed bits are not a single `let bits = ..`", count=True)
+    else:
+        terms = set(m.group(1).strip("()").replace("(", "").replace(")", "").split("|"))
+        nanbits = [int(x, 16) for x in terms if re.fullmatch(r"0x[0-9a-fA-F_]+", x)]
+        ok_ = ({"u32::fromdepth<<1", "u32::frominside", "Self::KEY"} <= terms or {"depthasu32<<1", "insideasu32", "Self::KEY"} <= terms) and nanbits and (nanbits[0] & 0x7F800000) == 0x7F800000
+        if ok_:
+            rule.ok("writer: NaN | depth << 1 | inside | KEY", file=PIX, line=fr[0]["ln"])
+        else:
+            rule.bad("pixel|pack", "a fill is packed as `%s`; it must be a NaN exponent | depth << 1 | inside (bit 0) | KEY" % m.group(1)[:80], A.where(PIX, fr[0]))
+    un = A.find_fn(PIX, "unpack", self_ty="RawDistancePixel", root=root)
+    ut = str(txt(un["body"]))
+    if "letinside=((bits&1)==1);" in ut and ("letdepth=((bits>>1)asu8);" in ut) and "ifself.is_distance(){DistancePixel::Value(self.0)}" in ut:
+        rule.ok("reader: inside = bit 0, depth = bits 1-8, a distance is handed back unchanged", file=PIX, line=un["ln"])
+    else:
+        rule.bad("pixel|unpack", "unpack must read the flag from bit 0 and the depth from bits 1-8 (what the writer stored), and return a distance unchanged", A.where(PIX, un))
+    isd = A.find_fn(PIX, "is_distance", self_ty="RawDistancePixel", root=root)
+    it = str(txt(isd["body"]))
+    if "if!self.0.is_nan(){returntrue;}" in it and "((bits&Self::KEY_MASK)!=Self::KEY)" in it:
+        rule.ok("every non-NaN value and every NaN without the key is a distance", file=PIX, line=isd["ln"])
+    else:
+        rule.bad("pixel|is_distance", "is_distance must hold for every non-NaN value and for NaNs whose masked bits differ from KEY", A.where(PIX, isd))
